@@ -145,7 +145,7 @@ theorem handle_feat (env : Env) (args : List Bytes) (c : Cfg) (h : handle env ar
     feat c i =
       if c.template = env.slimName ∧ i = env.iDeepEqual then false
       else (lastSetting env i args).getD (env.defaults.getD i false) := by
-  unfold handle at h
+  unfold handle handleFrom at h
   cases hr : run env (init env) args with
   | none => simp [hr] at h
   | some c0 =>
@@ -178,7 +178,7 @@ theorem handle_none_iff (env : Env) (args : List Bytes) :
     handle env args = none ↔
       (run env (init env) args = none ∨
        ∃ c, run env (init env) args = some c ∧ invalid env (slimRule env c) = true) := by
-  unfold handle
+  unfold handle handleFrom
   cases hr : run env (init env) args with
   | none => simp
   | some c =>
